@@ -163,7 +163,8 @@ def instantiate(forms, name_to_id, rng, tier):
                     variants.append(("db-decor", base_k + ["{k}{z}"], base_t, OPT["z"], (RT["k"], 3)))
             if f["er"] and f["name"] and not any(t.startswith("M ") for t in base_t):
                 variants.append(("db-decor", base_k + ["{er}"], base_t, OPT["er"], None))
-            if f["sae"] and not any(t.startswith("M ") for t in base_t):
+            # a lone {sae} exists only on forms without embedded rounding ({er} implies sae; validator rule of 6f19678)
+            if f["sae"] and not f["er"] and not any(t.startswith("M ") for t in base_t):
                 variants.append(("db-decor", base_k + ["{sae}"], base_t, OPT["sae"], None))
             # {evex}: for EVEX forms that are not APX promotions of legacy/VEX instructions (AsmJit does not implement APX)
             if (f.get("opcode") or "").startswith("EVEX") and "APX_F" not in f.get("ext", []):
@@ -174,7 +175,7 @@ def instantiate(forms, name_to_id, rng, tier):
                     variants.append(("db-decor", base_k + ["{er}{k}"], base_t, OPT["er"], (RT["k"], 3)))
                     if f["zmask"]:
                         variants.append(("db-decor", base_k + ["{er}{k}{z}"], base_t, OPT["er"] | OPT["z"], (RT["k"], 3)))
-                if f["sae"]:
+                if f["sae"] and not f["er"]:
                     variants.append(("db-decor", base_k + ["{sae}{k}"], base_t, OPT["sae"], (RT["k"], 3)))
             # embedded broadcast: per form (= per vector length) the {1toN} the database implies, N = memSize / bcstSize, incl. the
             # sub-128-bit cases (m64/b32 -> {1to2}, m64/b16 -> {1to4}, m32/b16 -> {1to2}); with the element size given and omitted, and under {k}
@@ -307,7 +308,7 @@ def instantiate(forms, name_to_id, rng, tier):
                     muts.append(("evex", key, ts, opt | OPT["evex"], extra))
                 if not f["er"]:
                     muts.append(("er", key, ts, opt | OPT["er"], extra))
-                if not f["sae"]:
+                if not f["sae"] or f["er"]:
                     muts.append(("sae", key, ts, opt | OPT["sae"], extra))
                 if any(t.startswith("M ") for t in ts):
                     muts.append(("seg7", key, [t if not t.startswith("M ") else " ".join(t.split()[:8] + ["7"] + t.split()[9:]) for t in ts], opt, extra))
@@ -526,3 +527,65 @@ def decoration_has(d, iid, dec):
     if dec in DECOR_IF:
         return bool(fl & DECOR_IF[dec])
     return bool(av & DECOR_AF[dec]) and bool(fl & IF_EVEX)
+
+
+def db_decorated_rows(forms, name_to_id, d=None):
+    """kind-level rows together with ONE decoration the database form grants, as the instruction word that carries it:
+    -> list of (key, inst_id, mode_mask, ops, options, extra_type, extra_id)"""
+    import itertools
+    out, seen = [], set()
+    for f in forms:
+        iid = name_to_id.get(f["name"])
+        if iid is None:
+            continue
+        ops = [db_operand_need(o) for o in f["operands"]]
+        if any(x is None for x in ops) or len(ops) > 6:
+            continue
+        mode = 3 if f["arch"] == "ANY" else (2 if f["arch"] == "X64" else 1)
+        for combo in itertools.product(*ops):
+            is_mem = [bool(f["operands"][i]["mem"]) and c[0] == f["operands"][i]["mem"] for i, c in enumerate(combo)]
+            if sum(is_mem) > 1:
+                continue
+            expl = [i for i in range(len(combo)) if not f["operands"][i]["implicit"]]
+            first_mem = bool(expl) and is_mem[expl[0]]
+            any_mem = any(is_mem[i] for i in expl)
+            decs = []
+            if f["prefixes"].get("lock") and first_mem:
+                decs.append(("lock", OPT["lock"], 0, 0))
+            if f["prefixes"].get("rep"):
+                decs.append(("rep", OPT["rep"], 0, 0))
+            if f["prefixes"].get("repne"):
+                decs.append(("repne", OPT["repne"], 0, 0))
+            if f["kmask"]:
+                decs.append(("{k}", 0, RT["k"], 3))
+                if f["zmask"] and not first_mem:
+                    decs.append(("{k}{z}", OPT["z"], RT["k"], 3))
+            # AsmJit restricts {er}/{sae} of PACKED instructions (those with broadcast flags) to 512-bit operands; the database also lists them
+            # for the 128/256-bit forms (AVX10.2): those combinations are refused by validator and assembler alike and are not generated
+            packed_not_512 = False
+            if d is not None and (d["x86.inst"][4 * iid + 1] & 0x70):
+                packed_not_512 = not any((c[1] & 0x80) or (c[1] & 0x8000000) for c in combo[:2])
+            if f["er"] and not any_mem and not packed_not_512:
+                decs.append(("{er}", OPT["er"], 0, 0))
+                if f["kmask"]:
+                    decs.append(("{er}{k}", OPT["er"], RT["k"], 3))
+            if f["sae"] and not f["er"] and not any_mem and not packed_not_512:
+                decs.append(("{sae}", OPT["sae"], 0, 0))
+                if f["kmask"]:
+                    decs.append(("{sae}{k}", OPT["sae"], RT["k"], 3))
+            if (f.get("opcode") or "").startswith("EVEX") and "APX_F" not in f.get("ext", []):
+                decs.append(("{evex}", OPT["evex"], 0, 0))
+            key0 = "%s %s" % (f["name"], ",".join(("<%s>" % c[0]) if f["operands"][i]["implicit"] else c[0] for i, c in enumerate(combo)))
+            if d is not None:
+                # decorations whose flag the tables lack are the known-absent pairs of db_decorations_absent_x86.txt (AVX10.2 forms of VEX instructions)
+                fl, av = d["x86.inst"][4 * iid], d["x86.inst"][4 * iid + 1]
+                ok_ = {"{k}": (fl & IF_EVEX) and (av & 1), "{k}{z}": (fl & IF_EVEX) and (av & 1) and (av & 2), "{evex}": fl & IF_EVEX,
+                       "{er}": fl & IF_EVEX, "{er}{k}": (fl & IF_EVEX) and (av & 1), "{sae}": fl & IF_EVEX, "{sae}{k}": (fl & IF_EVEX) and (av & 1)}
+                decs = [x for x in decs if ok_.get(x[0], True)]
+            for dn, o, et, ei in decs:
+                t = (key0 + "," + dn, iid, mode, tuple((c[1], c[2], 1 if f["operands"][i]["implicit"] else 0) for i, c in enumerate(combo)), o, et, ei)
+                if t[1:] in seen:
+                    continue
+                seen.add(t[1:])
+                out.append(t)
+    return out
